@@ -139,8 +139,13 @@ Fixpoint csv_quote_body (f : bytes) : bytes :=
 Definition csv_field (comma : Z) (f : bytes) : bytes :=
   if csv_needs_quotes comma f then 34 :: csv_quote_body f ++ [34] else f.
 
+(* interp/io.go writeCSV: a row that is a single empty field is written as "" (an empty
+   line would be read back as no row at all) *)
 Definition csv_encode (comma : Z) (l : list bytes) : bytes :=
-  join [comma] (map (csv_field comma) l).
+  match l with
+  | [[]] => [34; 34]
+  | _ => join [comma] (map (csv_field comma) l)
+  end.
 
 (* ---- checked list update: Go's a[i] = v -------------------------------- *)
 Definition list_set {A} (l : list A) (i : Z) (v : A) : res (list A) :=
